@@ -76,3 +76,34 @@ Proof.
   rewrite std_variance_spec by assumption. f_equal.
   unfold dsum, y12, Rs; simpl. unfold corr_get; simpl. cbn [zero of_Z RNum]. lra.
 Qed.
+
+(* ---------- the same, with no hypotheses, for every reachable state: after ANY history of
+   session operations (declarations, correlations, operators, result(), reads, failing calls)
+   and for ANY uncertain number present ---------- *)
+From GTCV Require Import Invariant Reachable.
+
+Theorem C04_reachable_variance :
+  forall ctx (p : list (KTypes.op R)) i o c,
+    let s := fst (run RNum (init RNum ctx) p) in
+    nth_error (s_slots s) i = Some (SReal o c) ->
+    std_variance_real RNum s o = Ok (vsum (fun _ u => u * u) (uc o) + dsum s (dc o) (dc o)) /\
+    std_covariance_real RNum s o o = std_variance_real RNum s o.
+Proof. exact reachable_variance. Qed.
+Print Assumptions C04_reachable_variance.
+
+Theorem C04_reachable_covariance_symmetric :
+  forall ctx (p : list (KTypes.op R)) i j a ca b cb,
+    let s := fst (run RNum (init RNum ctx) p) in
+    nth_error (s_slots s) i = Some (SReal a ca) -> nth_error (s_slots s) j = Some (SReal b cb) ->
+    std_covariance_real RNum s a b = std_covariance_real RNum s b a.
+Proof. exact reachable_covariance_symmetric. Qed.
+Print Assumptions C04_reachable_covariance_symmetric.
+
+(* the well-formedness invariant itself (sorted vectors over registered leaves of the right
+   kind, symmetric unit-diagonal correlation tables) holds in every reachable state, for the
+   binary64 instance too *)
+Theorem C04_invariant_reachable :
+  forall (N : Num), eqb N (one N) (one N) = true ->
+  forall ctx (p : list (KTypes.op (T N))), Inv N (fst (run N (init N ctx) p)).
+Proof. exact reachable_Inv. Qed.
+Print Assumptions C04_invariant_reachable.
